@@ -108,6 +108,19 @@ CLAIMS["C05"] = (
     "established by the planted-fault oracle; model (crown) trails are covered by the C03/C05 model check. One defect "
     "repaired (ExcludedTypeLoadError.input_value).", "DESIGN.md section 5 C05", TECH)
 
+CLAIMS["C01"] = (
+    "Proof: C01_roundtrip - for every admissible type of the fragment (int, float, bool, str, None, Literal, list / "
+    "variable tuple, fixed tuple, dict with scalar keys, Optional, Union of builtin classes) and every value of that type, "
+    "in every debug mode, dump succeeds and load(dump(v)) = v type-exactly; C01_roundtrip_lax without strict coercion for "
+    "union-free types. Side conditions (Optional's inner type never dumps None; union cases have pairwise different "
+    "classes and what a case dumps is rejected by every earlier case) are stated semantically in the theorem. Tied to the "
+    "code by the C02 dump/load correspondence and by evaluating load(dump v) in the model on generated pairs; the property "
+    "itself is the oracle on the library for ~26 scalar kinds, all containers, generated models of five kinds, generic and "
+    "recursive models, 9 name_mapping configurations, 6 retort configurations and a json hop.",
+    LOADNOTE + "Scalars outside the fragment, sets, enum/flag representations (C18), models and name mappings (C03) are "
+    "covered here by the round-trip oracle only; stdlib print/parse round trips are interpreter facts. Two defects "
+    "repaired (Literal with enum/bytes next to 0/1; timedelta).", "DESIGN.md section 5 C01", TECH)
+
 NOT_YET = "check not built yet in this session (DESIGN.md section 10 build order); not claimed until its model, theorems and correspondence exist"
 
 
